@@ -552,15 +552,25 @@ func recalcObjsPerSyncMsg(pods, ctrs int, err error) (int, int, error) {
 		factor = 0.9
 	}
 
-	pods = int(float64(pods) * factor)
-	ctrs = int(float64(ctrs) * factor)
+	newPods := int(float64(pods) * factor)
+	newCtrs := int(float64(ctrs) * factor)
 
-	if pods+ctrs < minObjsPerMsg {
-		pods = minObjsPerMsg / 2
-		ctrs = minObjsPerMsg / 2
+	// Never scale a kind of object that is still being sent down to zero,
+	// otherwise we can end up sending empty messages forever.
+	if pods > 0 && newPods == 0 {
+		newPods = 1
+	}
+	if ctrs > 0 && newCtrs == 0 {
+		newCtrs = 1
 	}
 
-	return pods, ctrs, nil
+	// Never go above what is left to send in the current message.
+	if newPods+newCtrs < minObjsPerMsg {
+		newPods = min(pods, minObjsPerMsg/2)
+		newCtrs = min(ctrs, minObjsPerMsg/2)
+	}
+
+	return newPods, newCtrs, nil
 }
 
 // Relay CreateContainer request to plugin.
